@@ -1816,7 +1816,7 @@ fn c21_comparison_and_key_order() {
 fn c21_key_value_pinned_tags() {
     assert!(!c21_pinned!(DbKeyValue, 9, [(0, 1)]), "DbKeyValue: missing value is rejected");
     assert!(!c21_pinned!(DbKeyValue, 10, [(0, 1), (9, 1)]), "DbKeyValue: truncated value is rejected");
-    assert!(c21_pinned!(DbKeyValue, 18, [(0, 1), (9, 1)]), "DbKeyValue {i64, i64} decodes from 18 bytes");
+    assert!(c21_pinned!(DbKeyValue, 18, [(0, 1), (9, 1)]), "DbKeyValue (i64, i64) decodes from 18 bytes");
     assert!(!c21_pinned!(DbKeyValue, 24, [(0, 1), (9, 9)]), "DbKeyValue: value tag 9 is unknown");
     kani::cover!(true, "end of harness reachable");
 }
